@@ -122,6 +122,13 @@ Failed(props0, sig, ign, km, cached, S, e) ==
              \A s \in S.seen : NFDiffer(s.nf, nf, km.typed) => s.kc # e.kc)
   \cup Chk(props, "C10", "C10.OwnResult", (cached /\ e.exc = "none" /\ InfoPreserving(sig, km)) =>
              ~NFDiffer(NF(sig, ign, FromLog(e.ret)), nf, km.typed))
+  \* memoization transparency on the key catalogue: the decorated function returns what the function returns for THIS call
+  \* (equal by Python's ==, as the statement says: under an untyped raw keymap f(1.0) may be answered with f(1)'s value)
+  \cup Chk(props, "C01", "C01.ReturnsFunctionValue", (cached /\ e.exc = "none" /\ InfoPreserving(sig, km) /\ e.ret.ok) =>
+             LET none == [names |-> {}, idx |-> {}, star |-> FALSE, dstar |-> FALSE]
+             IN ~NFDiffer(NF(sig, none, FromLog(e.ret)), NF(sig, none, bd), FALSE))
+  \cup Chk(props, "C01", "C01.ReturnsAValue", (cached /\ e.exc = "none") => e.ret.ok)
+  \cup Chk(props, "C01", "C01.CallSucceeds", (cached /\ e.bind.ok) => e.exc = "none")
   \cup Chk(props, "C17", "C17.KeyStable", \A x \in 1..Len(e.khex) : e.khex[x] = e.khex[1])
   \cup Chk(props, "C17", "C17.FoundInLaterSession", \A x \in 1..Len(e.later) : e.later[x] \in {"load", "hit"})
 
